@@ -159,9 +159,7 @@ theorem dense_step (s : Sheet) (op : Op) (h : Dense s.rows) : Dense (step s op).
     split
     · exact h
     · split <;> exact h
-  | getMerges =>
-    simp only [step, getMerges]
-    split <;> exact h
+  | getMerges => simp only [step, getMerges]; split <;> exact h
 
 /-! ### the getter under `Dense` -/
 
